@@ -8,6 +8,7 @@ import e1, lexer, printer, tlc, mrender
 PY = '/venv/bin/python'
 ENV = dict(os.environ, LANG='C.UTF-8', LC_ALL='C.UTF-8', PYTHONHASHSEED='0', PYTHONIOENCODING='utf-8')
 ENV.pop('WAYLAND_DEBUG', None)
+ENV.pop('PYTHONUNBUFFERED', None)      # the tool as users run it: its standard output is block-buffered when it is a pipe
 PROMPT = 'wl debug $ '
 
 
